@@ -486,5 +486,6 @@ RULES = [
     ("C16.wq", lambda c, r: __import__("sa.rules.wq", fromlist=["x"]).rule_workqueue(c, r, "C16.wq")),   # the work queue that executes resizes / deferred destroys
     ("C16.bpowner", lambda c, r: c15.rule_bp_owner(c, r, "C16.bpowner")),   # the child keeps the slot whose tid is its own
     ("C16.forkhooks", lambda c, r: __import__("sa.rules.lfht2", fromlist=["x"]).rule_lfht_forkhooks(c, r, "C16.forkhooks")),
+    ("C16.workcb", lambda c, r: __import__("sa.rules.lfht2", fromlist=["x"]).rule_workcb(c, r, "C16.workcb")),
 ]
 FLOORS = {}
